@@ -93,6 +93,17 @@ func c13Model(r *xrand.Rand) (*gen.Model, string) {
 			default:
 				n = &gen.SNode{Kind: "int", Val: fmt.Sprint(r.Range(1, 999))}
 			}
+			if r.Chance(1, 5) { // an explicit or-rule mixing built-in and user types
+				if r.Bool() {
+					n = &gen.SNode{Kind: "int", Val: "3", OrAlts: []string{"integer", "@name"}}
+				} else {
+					n = &gen.SNode{Kind: "string", Val: "abc", OrAlts: []string{"@name", "@slug"}}
+				}
+				if r.Chance(1, 3) {
+					n.OrAlts = []string{"string", "@slug", "@id"}
+					n.Kind, n.Val = "string", "abc"
+				}
+			}
 			props = append(props, &gen.SProp{Key: names[i], Node: n})
 		}
 		if len(props) == 0 {
@@ -198,6 +209,7 @@ func c13Eval(t *fw.T, c *fw.Case) {
 	vs = append(vs, variant{"nested-array-property", base + "GET /zx/{q}\n  Path\n    {\n      \"q\": [1]\n    }\n  200 any\n"})
 	vs = append(vs, variant{"empty-path-object", base + "GET /zw/{q}\n  Path\n    {}\n  200 any\n"})
 	vs = append(vs, variant{"path-body-regex-type", base + "GET /zv/{q}\n  Path\n    @slug\n  200 any\n"})
+	vs = append(vs, variant{"or-with-object-type", base + "TYPE @objForOr\n  {\"a\": 1}\nGET /zt/{q}\n  Path\n    {\n      \"q\": 1 // {or: [{type: \"integer\"}, \"@objForOr\"]}\n    }\n  200 any\n"})
 	vs = append(vs, variant{"two-path-directives", base + "GET /zu/{q}/{r}\n  Path\n    {\n      \"q\": 1\n    }\n  Path\n    {\n      \"r\": 1\n    }\n  200 any\n"})
 	for _, v := range vs {
 		dv := run.Single([]byte(v.text))
